@@ -320,7 +320,7 @@ int main(int argc, char **argv) {
     pos[s]++; remaining--;
     if (shard_n > 1 && ((pos[s] - 1) % shard_n) != shard_i) { if (inter) s = (s + 1) % nsh; continue; }
     fam_fill(fam, sk[s], st[s], pos[s] - 1, z);
-    if ((n_cases & 255) == 0) alarm(60);
+    if ((n_cases & 255) == 0) alarm(20);
     n_cases++;
     for (i = 0; i < nih; i++) {
       r = check_case(sk[s], st[s], ihm[i], z, shifts);
